@@ -31,6 +31,9 @@ def main():
         patch = os.path.join(d, "patch.diff")
         meta = json.load(open(os.path.join(d, "meta.json"))) if os.path.exists(os.path.join(d, "meta.json")) else {}
         prop = meta.get("property", n[:3])
+        if meta.get("neutralised"):
+            print("%-6s %-4s n/a (neutralised: %s)" % (n, prop, meta["neutralised"][:90]), flush=True)
+            continue
         code, _ = sh("git apply --check %s" % patch, cwd=REPO)
         if code != 0:
             print("%-6s %-4s n/a (patch does not apply to the current tree)" % (n, prop), flush=True)
